@@ -211,6 +211,7 @@ func (u *Unit) run() {
 		u.trusted["assumption in "+u.name+": "+rq.Text] = true
 	}
 	u.assumeRepInv(st, names)
+	u.useAxioms(st)
 	u.prepareReplay(old)
 	u.cover(st, "vacuity.requires", "precondition (requires ∧ repinv ∧ type ranges) is satisfiable")
 	st.trace = []string{"entry " + u.name}
@@ -590,6 +591,8 @@ func (o *Obl) query() string {
 	for _, t := range tags {
 		b.WriteString("(assert (> " + t + " 0))\n")
 	}
+	// errors created by fmt.Errorf/errors.New: errors.Is/As go through the wrapped error only
+	b.WriteString(o.D.errAxioms())
 	var sents []string
 	for name := range o.D.set {
 		if strings.HasPrefix(strings.Trim(name, "|"), "sentinel!") {
@@ -752,5 +755,25 @@ func (u *Unit) setupRefines(st *State, names map[string]*Val) {
 	for _, rq := range u.ct.Requires {
 		g, q := u.evalSpecBool(rst, rq.E, env, false)
 		u.oblige(rst, fmt.Sprintf("refines(%s).requires.%d", ct.Key, rq.N), "refines", rq.Text, g, q)
+	}
+}
+
+// useAxioms: `uses a b c` brings the named trusted axioms of the contract files into every query of the unit.
+func (u *Unit) useAxioms(st *State) {
+	for _, name := range strings.Fields(strings.ReplaceAll(u.ct.Flags["uses"], ",", " ")) {
+		found := false
+		for _, ax := range u.eng.cs.Axioms {
+			if ax.Name != name {
+				continue
+			}
+			found = true
+			env := &SpecEnv{names: map[string]*Val{}, pkg: u.eng.pkgOr(ax.Pkg, u.pkg), what: "axiom " + name}
+			g, _ := u.evalSpecBool(st, ax.E, env, true)
+			u.d.axiom(g)
+			u.trusted["axiom "+name+": "+ax.Text] = true
+		}
+		if !found {
+			u.eng.specError("%s: uses unknown axiom %s", u.name, name)
+		}
 	}
 }
